@@ -389,6 +389,9 @@ def run(run):
             phash = canon_hash(case)
             covered |= features_of(case["nodes"])
             for mi, mode in enumerate(MODES):
+                if mode == "relaunch_cli" and tier == "quick" and ci != len(cases) - 1:
+                    continue      # every launch re-inspects and rebuilds the pipeline: with the open finding F17 450 launches of a
+                                  # large pipeline cost gigabytes; quick runs this mode on the smallest configuration only
                 idx = ci * len(MODES) + mi
                 jobs.append((case, phash, mode, make_job(case, mode, tier, scratch, idx)))
         rows = execute(run, jobs, tier)
